@@ -178,8 +178,8 @@ def finish(res, tier, seed, level, t0, rule, assumptions, exhaustive=False, extr
 
 
 # ---- codec family -------------------------------------------------------------------------
-def gen_codec(modidx, planset, depth, exact=True, extra_consts=(), maxcompose=6):
-    consts = ["Mod <- TheMod", "ModIdx = %d" % modidx, 'PlanSet = "%s"' % planset, "Depth = %d" % depth, "MaxCompose = %d" % maxcompose,
+def gen_codec(modidx, planset, depth, exact=True, extra_consts=(), maxcompose=6, xervals=2):
+    consts = ["Mod <- TheMod", "ModIdx = %d" % modidx, 'PlanSet = "%s"' % planset, "Depth = %d" % depth, "MaxCompose = %d" % maxcompose, "XerVals = %d" % xervals,
               "ByteExact = %s" % ("TRUE" if exact else "FALSE")] + list(extra_consts)
     return lib.generate("MC_Gen", consts, ["RoundTrip", "WireCanonical", "DecSound", "Export"], workers=gen_workers)
 
